@@ -89,6 +89,17 @@ def w_cases(seeds):
         elif mode in (7, 8):
             root = random_tree(rnd, t, rnd.randint(1, 60))
             desc["base"] = "random"
+        elif seed % 20 == 19:
+            # a very wide parent: hundreds of children, valid and invalid mixed (positions and counts above 256)
+            from metapype.model.node import Node as _N
+            kind = rnd.choice(["attributeList", "abstract", "access", "keywordSet", "dataset"])
+            root = _N(kind)
+            pool = {"attributeList": ["attribute"], "abstract": ["para", "section", "markdown"], "access": ["allow", "deny"], "keywordSet": ["keyword"],
+                    "dataset": ["title", "creator", "keywordSet", "zzUnknown"]}[kind]
+            for i in range(rnd.choice([257, 300, 600])):
+                c = _N(rnd.choice(pool), content=rnd.choice([None, "x", "two words"]))
+                root.add_child(c)
+            desc.update(base="wide", kind=kind, children=len(root.children))
         else:
             kind = rnd.choice(["section", "taxon", "list", "unknown"])
             depth = rnd.choice([5, 30, 60, 100])
@@ -102,7 +113,7 @@ def w_cases(seeds):
                     muts.append(m)
         desc["mutations"] = muts
         nn = sum(1 for _ in walk(root))
-        ev = valtrace.observe_tree(root, per_node=(nn <= 400))
+        ev = valtrace.observe_tree(root, per_node=(nn <= 700))
         ev["desc"] = desc
         evs.append(ev)
         Node.store.clear()
